@@ -2,6 +2,7 @@ package main
 
 import (
 	"fmt"
+	"strings"
 	"go/token"
 	"go/types"
 
@@ -13,6 +14,11 @@ import (
 func (x *Exec) guard(fr *frame, ins ssa.Instruction, r string, cond string, what string) string {
 	if cond == "true" {
 		return r
+	}
+	if what == "nil-deref" && strings.HasPrefix(cond, "(not (= ") && strings.HasSuffix(cond, " 0))") {
+		if x.nonNil[cond[8:len(cond)-4]] {
+			return r
+		}
 	}
 	if x.checkPanics && fr.top {
 		x.nPanicObl++
